@@ -9,8 +9,10 @@ use serde_json::{json, Value};
 use std::sync::{Arc, Mutex};
 
 // (U+2028 / U+2029 / U+0085 are no line breaks for the parser: values holding them must come through unchanged)
-const VALS: [&str; 42] = ["record", "dflt", "\u{1b}[0m", "a\u{7f}b", "\u{1}", "", " ", "   ", "a", "a b", " a ", "x=y", "\\", "a\\b", "é", "0", "false", "-r", "two  spaces", "\t", "a\t", "\ta", "a\tb", "\u{a0}", "=a", "=", "a=", ":a", "!a", "a b\\", "C:\\my dir\\", "x\\",
-    "a\u{2028}b", "a\u{2029}b c", "x\u{85}y", "a\u{b}b", "\u{feff}a b", "100%$5", "a$%b", "%$", "$$", "%%x"];
+const VALS: [&str; 50] = ["record", "dflt", "\u{1b}[0m", "a\u{7f}b", "\u{1}", "", " ", "   ", "a", "a b", " a ", "x=y", "\\", "a\\b", "é", "0", "false", "-r", "two  spaces", "\t", "a\t", "\ta", "a\tb", "\u{a0}", "=a", "=", "a=", ":a", "!a", "a b\\", "C:\\my dir\\", "x\\",
+    "a\u{2028}b", "a\u{2029}b c", "x\u{85}y", "a\u{b}b", "\u{feff}a b", "100%$5", "a$%b", "%$", "$$", "%%x",
+    // apostrophes are ordinary characters; a double quote inside a value without white space is written back as it is
+    "'a'", "'tis", "'", "it's", "'two words'", "5\"x", "a\"b\"c", "x\""];
 
 pub fn gen(r: &mut Rng) -> Value {
     if r.chance(1, 5) {
@@ -45,7 +47,9 @@ pub fn class_of(input: &Value) -> &'static str {
     if args.iter().any(|a| a.contains("${") || a.contains("%{")) { "argument-containing-variable-reference-text" }
     else if args.iter().any(|a| a.contains('\n') || a.contains('\r')) { "argument-containing-line-break" }
     else if args.iter().any(|a| a.contains('#')) { "argument-containing-hash" }
-    else if args.iter().any(|a| a.contains('"')) { "argument-containing-double-quote" }
+    // (a double quote inside a value that has no white space and does not start with one is written back as it is
+    // and comes through unchanged: only the other values with a double quote are the listed weakness)
+    else if args.iter().any(|a| a.contains('"') && (a.starts_with('"') || a.chars().any(char::is_whitespace))) { "argument-containing-double-quote" }
     else if args.first().map(|a| a.starts_with('=')).unwrap_or(false) { "first-argument-starting-with-equals-sign" }
     else { "other" }
 }
